@@ -55,7 +55,7 @@ pub fn world_for(seed: u64, v: Variant) -> World {
         1 => Discipline::D1,
         _ => Discipline::D2,
     };
-    let mut w = World::boot(WorldCfg { seed, discipline, order: v.order, ..Default::default() });
+    let mut w = World::boot(WorldCfg { seed, discipline, order: v.order, sei: if seed % 3 == 0 { None } else { Some(3600) }, ..Default::default() });
     w.sim.rng = Rng::new(seed.wrapping_mul(131).wrapping_add(v.discipline as u64));
     match v.reader {
         1 => w.sim.reader.0.borrow_mut().default_cap = 1,
@@ -140,8 +140,48 @@ pub fn alpha() -> Alpha {
         terms: vec![TermAct::UserDisconnect, TermAct::ServerDisconnect { reason: 0x8b, form: 2, props: true }, TermAct::ServerDisconnect { reason: 0, form: 0, props: false }, TermAct::Eof, TermAct::ReadErr, TermAct::Garbage],
         drop_ctx: true,
         after_drop_kinds: vec![Kind::Pub1, Kind::Ping],
+        reconnect: true,
         ..Default::default()
     }
+}
+
+/// N handshakes left unfinished by a lost connection and re-sent when the session is resumed
+fn burst_resume(seed: u64, v: Variant, n: usize) -> (World, Obs) {
+    let mut w = world_for(seed - seed % 3 + 1, v);
+    w.sim.log_enabled = n <= 40;
+    for j in 0..n {
+        // one stimulus at a time (which of two simultaneously ready sources run() serves first is its free choice)
+        let i = w.start(j % 2, if j % 3 == 2 { Kind::Pub2 } else { Kind::Pub1 });
+        w.settle_check();
+        if j % 6 == 5 && w.m[i].req_wire.is_some() {
+            // a QoS 2 exchange already in its second phase
+            w.deliver_ack(i, 1, 0, 0);
+            w.settle_check();
+        }
+    }
+    w.settle_check();
+    w.eof();
+    w.settle_check();
+    let resumed = w.resume_full(ResumeOpts { secs_ago: 1, sei: Some(3600), ..Default::default() });
+    w.settle_check();
+    if resumed && !w.blind {
+        for _ in 0..2 {
+            for (i, st) in w.ackable() {
+                w.deliver_ack(i, st, 0, 0);
+                w.settle_check();
+            }
+        }
+    }
+    finish(&mut w);
+    // on a resumed connection everything that goes missing under the wake-only executor is C16's business here
+    for vi in w.viols.iter_mut() {
+        if !vi.props.contains(&"C16") && !vi.props.contains(&"*") {
+            vi.sig = format!("C16/resumption/{}", vi.sig);
+            vi.props = &["C16"];
+        }
+    }
+    let o = observe(&mut w);
+    (w, o)
 }
 
 /// K inbound packets made available by one transport event (after a subscription with a live stream exists)
@@ -195,10 +235,10 @@ fn burst_requests(seed: u64, v: Variant, k: usize) -> (World, Obs) {
 
 fn bursts(rep: &mut Rep) {
     let sizes: Vec<usize> = if rep.quick() { vec![1, 7, 15, 16, 17, 31, 32, 33, 64, 100] } else { (1..=70).chain([100, 127, 128, 129, 255, 256, 257, 500, 1000]).collect() };
-    rep.note(&format!("bursts: {:?} inbound packets made available by one transport event (without and with DUP=1 re-deliveries right behind the original), and as many requests already queued when the context runs, each under wake-only vs sweep vs spurious-poll executors and 3 reader plans", sizes));
+    rep.note(&format!("bursts: {:?} inbound packets made available by one transport event (without and with DUP=1 re-deliveries right behind the original), as many handshakes re-sent at once on a resumed connection, and as many requests already queued when the context runs, each under wake-only vs sweep vs spurious-poll executors and 3 reader plans", sizes));
     let mut idx = 80_000_000u64;
     for &k in &sizes {
-        for kind in 0..3u8 {
+        for kind in 0..4u8 {
             let id = format!("burst:{kind}:{k}");
             idx += 1;
             if !rep.take(idx, &id) {
@@ -208,7 +248,8 @@ fn bursts(rep: &mut Rep) {
             let (mut w0, ref_obs) = match kind {
                 0 => burst_inbound(rep.seed, base, k),
                 1 => burst_requests(rep.seed, base, k),
-                _ => burst_inbound_dups(rep.seed, base, k, true),
+                2 => burst_inbound_dups(rep.seed, base, k, true),
+                _ => burst_resume(rep.seed, base, k),
             };
             rep.add("evaluations", 1);
             rep.add("burst_cases", 1);
@@ -228,7 +269,8 @@ fn bursts(rep: &mut Rep) {
                 let (mut w, obs) = match kind {
                     0 => burst_inbound(rep.seed, *v, k),
                     1 => burst_requests(rep.seed, *v, k),
-                    _ => burst_inbound_dups(rep.seed, *v, k, true),
+                    2 => burst_inbound_dups(rep.seed, *v, k, true),
+                    _ => burst_resume(rep.seed, *v, k),
                 };
                 rep.add("evaluations", 1);
                 rep.add("variant_runs", 1);
@@ -239,7 +281,7 @@ fn bursts(rep: &mut Rep) {
                         1 => "sweep-after-every-event",
                         _ => "spurious-polls",
                     };
-                    w.viol(&["C16"], format!("C16/observation-differs/{which}/{field}"), format!("burst of {k} ({}), variant {v:?} vs wake-only reference: {d}", match kind { 0 => "inbound packets in one read", 1 => "queued requests", _ => "inbound packets with re-deliveries in one read" }));
+                    w.viol(&["C16"], format!("C16/observation-differs/{which}/{field}"), format!("burst of {k} ({}), variant {v:?} vs wake-only reference: {d}", match kind { 0 => "inbound packets in one read", 1 => "queued requests", 2 => "inbound packets with re-deliveries in one read", _ => "handshakes re-sent on a resumed connection" }));
                 } else {
                     rep.add("identical_observations", 1);
                 }
